@@ -321,6 +321,11 @@ SLOT_REVIEWED = {
     ("frontend::worker_tree::WorkerTree", "external_dependencies"): "file -> set of dependent nodes; iterated to restart dependents / list watched files: set semantics",
     ("frontend::work_item::WorkItem", "external_file_dependencies"): "the set of files an item read; iterated by the worker tree to link / unlink the item in the dependency map, one keyed operation per element (order-free)",
 }
+# Reviewed per container, for any function of the file that owns it (methods and private helpers alike)
+SLOT_REVIEWED_IN_FILE = {
+    ("frontend::resources::Source", "Memory.0"): ("frontend/resources.rs", "in-memory resources only: enumeration order of the inputs / snapshot of existing outputs "
+                                                                           "(the property quantifies over the enumeration order; items are independent)"),
+}
 # owners whose methods may iterate the reviewed slots above
 SLOT_OWNERS = ("frontend::worker_tree::WorkerTree", "frontend::work_item::WorkItem")
 CONFIGURE_REASON = "`for (key, value) in properties`: each key writes its own field; keys writing the same field are excluded by verify_property_collisions (C19.collide)"
@@ -368,6 +373,8 @@ def order(R, ctx):
                     for sl in slots:
                         if sl in SLOT_REVIEWED and owner in SLOT_OWNERS:
                             why = SLOT_REVIEWED[sl]
+                        if sl in SLOT_REVIEWED_IN_FILE and (f.get("file") or "").endswith(SLOT_REVIEWED_IN_FILE[sl][0]):
+                            why = SLOT_REVIEWED_IN_FILE[sl][1]
                     if why is None and crate is ctx.lib:
                         from . import c09 as _c09
                         roles = _c09._rp_layout(ctx.lib)
